@@ -329,6 +329,13 @@ def canon_tree(t):
     return t
 
 
+
+def translators(ctx):
+    sys.path.insert(0, os.path.join(common.VERIF, "translate"))
+    import typenames
+    return [typenames.translate]
+
+
 def correspond(ctx):
     lines, expect = [], []
     d0 = g.Decls(ctx.rng, 0)
